@@ -30,11 +30,12 @@ Entries == <<
   [p |-> "modules/m/__init__.py", c |-> "modules.m",     gated |-> FALSE, auto |-> FALSE],
   [p |-> "modules/m.py",          c |-> "modules.m",     gated |-> FALSE, auto |-> FALSE],
   [p |-> "modules/m/u.py",        c |-> "modules.m.u",   gated |-> FALSE, auto |-> FALSE],
+  [p |-> "modules/d.py",          c |-> "modules.d",     gated |-> FALSE, auto |-> FALSE],
   [p |-> "modules/n.py",          c |-> "modules.n",     gated |-> FALSE, auto |-> FALSE],
   [p |-> "scripts/s.py",          c |-> "scripts.s",     gated |-> FALSE, auto |-> TRUE ],
   [p |-> "scripts/sub/t.py",      c |-> "scripts.sub.t", gated |-> FALSE, auto |-> TRUE ] >>
 PathSet  == { Entries[i].p : i \in 1..Len(Entries) }
-CtxOrder == << "apps.p", "apps.p.h", "file.a", "modules.m", "modules.m.u", "modules.n", "scripts.s", "scripts.sub.t" >>  \* sorted()
+CtxOrder == << "apps.p", "apps.p.h", "file.a", "modules.d", "modules.m", "modules.m.u", "modules.n", "scripts.s", "scripts.sub.t" >>  \* sorted()
 CtxNames == { CtxOrder[i] : i \in 1..Len(CtxOrder) }
 CtxOf(p) == Entries[CHOOSE i \in 1..Len(Entries) : Entries[i].p = p].c          \* the documented naming table
 Dirs == {"apps/p", "modules/m", "scripts/sub"}
@@ -42,23 +43,27 @@ DirOf(p) == CASE p \in {"apps/p/__init__.py", "apps/p/h.py"} -> "apps/p"
               [] p \in {"modules/m/__init__.py", "modules/m/u.py"} -> "modules/m"
               [] p = "scripts/sub/t.py" -> "scripts/sub" [] OTHER -> ""
 Root(c) == CASE c \in {"apps.p", "apps.p.h"} -> "apps.p" [] c \in {"modules.m", "modules.m.u"} -> "modules.m" [] OTHER -> c
-IsPkgMember(c) == c \in {"apps.p", "apps.p.h", "modules.m", "modules.m.u", "modules.n"}      \* startswith apps. / modules.
-IsModule(c)    == c \in {"modules.m", "modules.m.u", "modules.n"}                             \* startswith modules.
-TopFile(p) == p \in {"apps/p/__init__.py", "apps/p.py", "modules/m/__init__.py", "modules/m.py", "modules/n.py"}
+IsPkgMember(c) == c \in {"apps.p", "apps.p.h", "modules.m", "modules.m.u", "modules.n", "modules.d"}      \* startswith apps. / modules.
+IsModule(c)    == c \in {"modules.m", "modules.m.u", "modules.n", "modules.d"}                            \* startswith modules.
+TopFile(p) == p \in {"apps/p/__init__.py", "apps/p.py", "modules/m/__init__.py", "modules/m.py", "modules/n.py", "modules/d.py"}
 AutoCtx == {"file.a", "apps.p", "scripts.s", "scripts.sub.t"}
 
-\* import statements a file of the universe may contain (acyclic: file/script/app -> sibling -> m -> u -> n)
+\* import statements a file of the universe may contain (acyclic: file/script/app -> sibling -> m -> u -> n -> d).
+\* n imports d: every importer of n reaches d, so a file importing both m and n (or an app whose sibling imports n)
+\* forms a DIAMOND whose join n has a further module behind it (a -> m -> n -> d, a -> n -> d; p -> h -> n -> d, p -> m -> n -> d)
 MaxImps(p) == CASE p \in {"a.py", "scripts/s.py", "scripts/sub/t.py", "apps/p.py", "apps/p/h.py"} -> {"m", "n"}
                 [] p = "apps/p/__init__.py"    -> {".h", "m", "n"}        \* from . import h
                 [] p = "modules/m/__init__.py" -> {".u", "n"}             \* from . import u
                 [] p \in {"modules/m.py", "modules/m/u.py"} -> {"n"}
+                [] p = "modules/n.py" -> {"d"}
                 [] OTHER -> {}
-ImpOrder == << ".h", ".u", "m", "n" >>                 \* order of the import statements in a source file
+ImpOrder == << ".h", ".u", "m", "n", "d" >>                \* order of the import statements in a source file
 \* candidate files of an import target, in module_import's order: [path, context name]
 Cands(t) == CASE t = ".h" -> << [p |-> "apps/p/h.py", c |-> "apps.p.h"] >>
               [] t = ".u" -> << [p |-> "modules/m/u.py", c |-> "modules.m.u"] >>
               [] t = "m"  -> << [p |-> "modules/m/__init__.py", c |-> "modules.m"], [p |-> "modules/m.py", c |-> "modules.m"] >>
               [] t = "n"  -> << [p |-> "modules/n.py", c |-> "modules.n"] >>
+              [] t = "d"  -> << [p |-> "modules/d.py", c |-> "modules.d"] >>
 TargetCtx(t) == Cands(t)[1].c
 
 \* a file: ex (exists on disk), hash (its own name starts with '#'), gen (source generation, identifies the
@@ -84,7 +89,7 @@ ApplyCfg(G, act)  == IF act.a = "cfg" THEN act.v ELSE G
 \* ------------------------------------------------------------------------- 2. mechanism
 \* (TLC evaluates [c \in S |-> e] lazily, re-evaluating e at every application: OverCtx builds the same
 \*  function explicitly, each value computed once.  Purely an evaluation-cost device.)
-OverCtx(f) == ("apps.p" :> f["apps.p"]) @@ ("apps.p.h" :> f["apps.p.h"]) @@ ("file.a" :> f["file.a"]) @@ ("modules.m" :> f["modules.m"])
+OverCtx(f) == ("apps.p" :> f["apps.p"]) @@ ("apps.p.h" :> f["apps.p.h"]) @@ ("file.a" :> f["file.a"]) @@ ("modules.d" :> f["modules.d"]) @@ ("modules.m" :> f["modules.m"])
               @@ ("modules.m.u" :> f["modules.m.u"]) @@ ("modules.n" :> f["modules.n"]) @@ ("scripts.s" :> f["scripts.s"])
               @@ ("scripts.sub.t" :> f["scripts.sub.t"])
 \* glob_read_files: first matching entry per context name; gated entries need the app configuration
@@ -132,7 +137,8 @@ LoadAll(F, H, d2f, S, force, i) ==
        IF c \in force THEN LoadAll(F, H, d2f, LoadFile(F, H, S, d2f[c].path, d2f[c].cfg), force, i + 1)
        ELSE LoadAll(F, H, d2f, S, force, i + 1)
 
-CodeFlags == {"del-no-propagate", "named-no-start"}
+AllFlags  == {"del-no-propagate", "named-no-start"}      \* deviations of the originally pinned tree (repaired since: fix commits)
+CodeFlags == {}                                          \* deviations of the mechanism of the current tree
 \* start_global_contexts(arg): every context for "" / "*", else the named one and those whose name starts with arg + "."
 StartMatch(arg, c) == arg \in {"", "*"} \/ c = arg \/ (arg = "apps.p" /\ c = "apps.p.h") \/ (arg = "modules.m" /\ c = "modules.m.u")
 
@@ -181,6 +187,7 @@ DocSource(F, H, G, c) ==
        [] c = "modules.m"     -> two("modules/m/__init__.py", "modules/m.py")
        [] c = "modules.m.u"   -> one("modules/m/u.py")
        [] c = "modules.n"     -> one("modules/n.py")
+       [] c = "modules.d"     -> one("modules/d.py")
        [] c = "scripts.s"     -> one("scripts/s.py")
        [] c = "scripts.sub.t" -> one("scripts/sub/t.py")
 DocCfg(G, c) == IF c = "apps.p" THEN G ELSE 0
